@@ -78,7 +78,9 @@ impl<'a> IndexPlanner<'a> {
         if is_temporal {
             // IN operations require checking multiple values, which temporal range indexes can't efficiently handle.
             // Use FullScan and let the condition evaluator filter events.
-            if matches!(operation, Some(CompareOp::In)) {
+            // `!=` matches almost every zone and the temporal pruner only answers `=` and ranges
+            // (it declines, and a declined temporal strategy reads no zone at all).
+            if matches!(operation, Some(CompareOp::In) | Some(CompareOp::Neq)) {
                 return IndexStrategy::FullScan;
             }
             if matches!(operation, Some(CompareOp::Eq)) {
